@@ -156,6 +156,9 @@ def gen_cases(ctx: Ctx):
     # 5 heterogeneous batches where homogeneous ones are needed
     cases.append(("reject", {"kind": "es", "names": ["h2o", "ch2o"], "excited": {"n_states": 2, "method": "rpa"}, "precondition": "hetero_rpa", "expect": R}))
     cases.append(("reject", {"kind": "es", "names": ["h2o", "ch2o"], "excited": {"n_states": 2, "method": "cis"}, "active_state": 1, "analytical": [True], "precondition": "hetero_excited_gradient", "expect": R}))
+    # ... heterogeneous in the ELECTRON COUNT only (same species rows, different charges: same number of orbitals, different occupations)
+    cases.append(("reject", {"kind": "es", "names": ["h2o", "h2o"], "charge": [0, 2], "excited": {"n_states": 2, "method": "cis"}, "precondition": "hetero_cis_charge", "expect": R}))
+    cases.append(("reject", {"kind": "es", "names": ["ch2o", "ch2o"], "charge": [2, 0], "excited": {"n_states": 2, "method": "rpa"}, "precondition": "hetero_rpa_charge", "expect": R}))
     # 6 excited active state without settings
     cases.append(("reject", {"kind": "es", "names": ["h2o"], "active_state": 1, "precondition": "active_state_needs_settings", "expect": R}))
     # 7 unknown COM mode
